@@ -85,6 +85,28 @@ def check(ctx):
         ctx.require(bool(inst) and inst[-1] is True, "C08.O2", f"delivered object passed isinstance [{desc}]", f"find_injections delivers an object without a successful isinstance check against the annotated type (path [{desc}])", site=site1, key="C08.O2|check")
         ctx.require(set(res.items) == {"dep"}, "C08.O1", "only requested names are delivered", f"find_injections returns keys {list(res.items)}", site=site1, key="C08.O1|keys")
     ctx.require(kinds >= {"first", "second", "raise"}, "C08.O1", "all three outcomes reachable (plain, prefixed, error)", f"find_injections only has the outcomes {sorted(kinds)}", site=site1, key="C08.O1|outcomes")
+    # ---- O1 with two requests: nothing found for one name may leak into the next
+    def run2(it, w):
+        inj = Ext("injectables", "user", role="instance")
+        res = it.call(FI, [DictV({"first": T, "second": T}), inj, cname], {})
+        gets = [e for e in it.trace if e.kind == "user" and e.name == "injectables.get"]
+        return res, gets
+
+    paths2 = fn.all_paths(ctx, run2)
+    ctx.add("paths", len(paths2))
+    for p in paths2:
+        if p.outcome != "return":
+            continue
+        res, gets = p.value
+        for nm in ("first", "second"):
+            stored = res.items.get(nm) if isinstance(res, DictV) else None
+            mine = [g for g in gets if g.args and (g.args[0] == nm or g.args[0] == SymStr((cname, "_" + nm)))]
+            ok = isinstance(stored, Ext) and any(stored is g.extra for g in mine)
+            if not ok:
+                desc = "; ".join(f"{a[0]}({str(a[-1])[-30:]})={v}" for a, v, _ in p.path)
+                ctx.fail("C08.O1", f"with two requested attributes find_injections delivers for '{nm}' an object that was not looked up under '{nm}' or '<cname>_{nm}' (path [{desc}]): a missing attribute silently receives another attribute's object instead of raising", site=site1, key=f"C08.O1|leak|{nm}")
+    if not any(o[0] == "C08.O1" and not o[2] for o in ctx.obligations):
+        ctx.ok("C08.O1", f"two-request scenario: every delivered object was looked up under its own name ({len(paths2)} paths)")
     # ---- O3
     Alias = ClassV("GenericAlias", [], {"__annotations__": DictV()}, mi, None, "GenericAlias", mutable=True)
     alias = Obj(Alias, {"__origin__": T})
